@@ -20,15 +20,16 @@ type GACL struct {
 }
 
 type GConf struct {
-	Kind   string
-	Intfs  []string // ASA nameifs / IOS interface names
-	Groups []*GGroup
-	ACLs   []*GACL
-	Binds  [][3]string // acl, direction, interface ("" = global)
-	Routes []string
-	Extra  []string // further lines / blocks, printed verbatim
-	VPN    *GVPN
-	VRF    string // IOS: all managed interfaces and routes belong to this VRF
+	Kind      string
+	Intfs     []string // ASA nameifs / IOS interface names
+	Groups    []*GGroup
+	ACLs      []*GACL
+	Binds     [][3]string // acl, direction, interface ("" = global)
+	Routes    []string
+	Extra     []string // further lines / blocks, printed verbatim
+	VPN       *GVPN
+	VRF       string // IOS: all managed interfaces and routes belong to this VRF
+	IOSCrypto *GIOSCrypto
 }
 
 func (c *GConf) clone() *GConf {
@@ -44,6 +45,7 @@ func (c *GConf) clone() *GConf {
 	n.Routes = append(n.Routes, c.Routes...)
 	n.Extra = append(n.Extra, c.Extra...)
 	n.VPN = c.VPN.clone()
+	n.IOSCrypto = c.IOSCrypto.clone()
 	return n
 }
 
@@ -112,6 +114,7 @@ func (c *GConf) Text(device bool) string {
 			fmt.Fprintf(&b, " %s\n", l)
 		}
 	}
+	b.WriteString(c.IOSCrypto.text())
 	for i, n := range c.Intfs {
 		fmt.Fprintf(&b, "interface %s\n", n)
 		if c.VRF != "" {
@@ -122,6 +125,9 @@ func (c *GConf) Text(device bool) string {
 			if bd[2] == n {
 				fmt.Fprintf(&b, " ip access-group %s %s\n", bd[0], bd[1])
 			}
+		}
+		if c.IOSCrypto != nil && c.IOSCrypto.Intf == n {
+			fmt.Fprintf(&b, " crypto map %s\n", c.IOSCrypto.Map)
 		}
 	}
 	for _, r := range c.Routes {
@@ -379,6 +385,9 @@ func (g *Gen) Target() *GConf {
 			}
 		}
 	}
+	if g.Kind == "ios" && !g.Small && g.WithVPN && g.Rng.Intn(3) == 0 {
+		g.targetIOSCrypto(c, c.Intfs[len(c.Intfs)-1])
+	}
 	g.pruneGroups(c)
 	if g.Kind == "asa" && !g.Small && g.WithVPN && g.Rng.Intn(2) == 0 {
 		c.VPN = g.TargetVPN(c.Intfs[len(c.Intfs)-1])
@@ -441,14 +450,33 @@ func (g *Gen) Device(t *GConf, nedits int, unmanaged bool) (*GConf, []string) {
 			}
 			continue
 		}
+		if d.IOSCrypto != nil && g.Rng.Intn(2) == 0 {
+			if op := g.EditIOSCrypto(d); op != "" {
+				ops = append(ops, op)
+			}
+			continue
+		}
 		switch g.Rng.Intn(26) {
 		case 0: // generated names on device
 			for _, a := range d.ACLs {
 				old := a.Name
+				if strings.HasPrefix(old, "crypto-") && !strings.HasPrefix(old, "crypto-filter-") {
+					continue // ACL of 'match address': configured by hand
+				}
 				a.Name = fmt.Sprintf("%s-DRC-%d", old, g.Rng.Intn(2))
 				for i := range d.Binds {
 					if d.Binds[i][0] == old {
 						d.Binds[i][0] = a.Name
+					}
+				}
+				if d.IOSCrypto != nil {
+					for _, e := range d.IOSCrypto.Entries {
+						if e.Filter == old {
+							e.Filter = a.Name
+						}
+						if e.Match == old {
+							e.Match = a.Name
+						}
 					}
 				}
 			}
